@@ -46,6 +46,9 @@ Variants(h) ==
           m \in {<<<<30, 0, 94, 16, 74, 1>>, <<2, 0, 0, 0, 0, 1>>>>, <<<<30, 0, 0, 0, 96, 0>>, <<30, 0, 0, 0, 69, 0>>>>, <<<<69, 0, 0, 40, 0, 0>>, <<64, 0, 64, 6, 0, 0>>>>,
                   <<<<96, 0, 0, 0, 0, 20>>, <<6, 64, 0, 0, 0, 0>>>>, <<<<255, 255, 255, 255, 255, 255>>, <<0, 0, 0, 0, 0, 0>>>>},
           p \in {0, 33}, t \in {1, 64, 255}}
+  \* IPv4 options of differing content (NOP, end-of-list, octets of a timestamp / record-route option that change from hop to hop)
+  \cup (IF h.ver = 4 THEN {[link |-> l, cut |-> 0, h |-> [h EXCEPT !.ihl = i, !.ipopt = b, !.payload = Pay(p)]] :
+                               l \in {"eth", "raw"}, i \in {6, 7, 15}, b \in {0, 1, 68, 7, 255}, p \in {0, 33}} ELSE {})
   \* the fragment word of IPv4: reserved bit, DF, MF (a first fragment still carries the ports)
   \cup (IF h.ver = 4 THEN {[link |-> l, cut |-> 0, h |-> [h EXCEPT !.rf = r, !.df = d, !.mf = m, !.payload = Pay(p)]] :
                                l \in {"eth", "raw"}, r \in BOOLEAN, d \in BOOLEAN, m \in BOOLEAN, p \in {0, 33}} ELSE {})
